@@ -78,7 +78,7 @@ def validate_file(trace_path, spe, deviations, timeout=900):
     cfg = ("SPECIFICATION TraceSpec\nCONSTANTS\n  SPE = %d\n  KnownDeviations = %s\n"
            "POSTCONDITION TraceAccepted\nCHECK_DEADLOCK FALSE\n" % (spe, devs))
     open(os.path.join(wd, "fct.cfg"), "w").write(cfg)
-    res = lib.tlc("ForkChoiceTrace", cfg="fct.cfg", workdir=wd, workers=1, timeout=timeout)
+    res = lib.tlc("ForkChoiceTrace", cfg="fct.cfg", workdir=wd, workers=1, timeout=timeout, heap="2g")
     shutil.rmtree(wd, ignore_errors=True)
     if res.rc != 0 or res.errors or "Model checking completed" not in res.out:
         raise lib.InfraError("TLC failed on %s:\n%s" % (trace_path, res.out[-5000:]))
@@ -177,7 +177,7 @@ def tlc_generated_ops(seed, spe, n, depth):
     wd = lib.fresh_spec_copy()
     cfg = "INIT GenInit\nNEXT GenNext\nCONSTANTS\n  SPE = %d\n  KnownDeviations = {}\n  MaxDepth = %d\n" % (spe, depth)
     open(os.path.join(wd, "gen.cfg"), "w").write(cfg)
-    res = lib.tlc("ForkChoiceGen", cfg="gen.cfg", workdir=wd, workers=1, timeout=600,
+    res = lib.tlc("ForkChoiceGen", cfg="gen.cfg", workdir=wd, workers=1, timeout=900, heap="2g",
                   simulate="num=%d" % n, depth=depth + 3, seed=seed, deadlock=False)
     shutil.rmtree(wd, ignore_errors=True)
     hists = []
@@ -216,7 +216,7 @@ def model_check_proto(tier):
         cfg = cfg.replace("MaxCalls = 4", "MaxCalls = 5")
         open(os.path.join(wd, "MC_ProtoArray.cfg"), "w").write(cfg)
     res = lib.tlc("MC_ProtoArray", cfg="MC_ProtoArray.cfg", workdir=wd, workers=6 if tier == "quick" else 12,
-                  timeout=900 if tier == "quick" else 3000, heap="8g")
+                  timeout=900 if tier == "quick" else 3000, heap="6g")
     shutil.rmtree(wd, ignore_errors=True)
     if res.rc != 0 or res.errors or "No error has been found" not in res.out:
         raise lib.InfraError("MC_ProtoArray did not pass (a divergence of the array algorithm from the abstract "
@@ -232,8 +232,8 @@ def model_check(tier):
     if tier == "thorough":
         cfg = cfg.replace("MaxCalls = 4", "MaxCalls = 5")
         open(os.path.join(wd, "MC_ForkChoice.cfg"), "w").write(cfg)
-    res = lib.tlc("MC_ForkChoice", cfg="MC_ForkChoice.cfg", workdir=wd, workers=8 if tier == "quick" else 14,
-                  timeout=600 if tier == "quick" else 3000)
+    res = lib.tlc("MC_ForkChoice", cfg="MC_ForkChoice.cfg", workdir=wd, workers=8 if tier == "quick" else 12,
+                  timeout=600 if tier == "quick" else 3000, heap="6g")
     shutil.rmtree(wd, ignore_errors=True)
     if res.rc != 0 or res.errors or "No error has been found" not in res.out:
         raise lib.InfraError("MC_ForkChoice did not pass (specification problem, not a verdict):\n" + res.out[-4000:])
@@ -312,7 +312,7 @@ def run_check(pid, tier, seed, replay=None):
         events = lib.read_ndjson(path)
         res = validate_file(path, spe, findings)
         return path, events, res
-    for path, events, res in lib.parallel_map(val, jobs):
+    for path, events, res in lib.parallel_map(val, jobs, workers=6):
         summarize_trace(run, events)
         process_result(run, path, events, res, findings)
 
